@@ -1,7 +1,351 @@
 import GoawkModel.Basic
-/-! Line-protocol handler for property C01: one request line (already split into words, without the leading `c01`) → one answer line. -/
-namespace GoawkModel.Drv.C01
+import GoawkModel.C01
+import GoawkModel.C01Conc
+import GoawkModel.Generated.Opcodes
+/-!
+Line-protocol handler for property C01.
 
-def handle (_args : List String) : String := "unimplemented"
+* `compile s|e <nums> ; <strs> ; <term>` → `ok <opcode words>`: Lean `cStmt 0 0` / `cExpr` of the block, encoded with the
+  generated opcode numbering and the real constant tables.
+* `run <input hex> <item>*` → `<eval outcome> <vm outcome> <exact|inexact>`: the program run by the reference evaluator
+  and by compiler+VM under the concrete semantics `semC`.
+
+Terms are prefix token streams produced by the harness from the real resolved syntax tree.
+-/
+namespace GoawkModel.Drv.C01
+open GoawkModel GoawkModel.C01
+
+abbrev P (α : Type) := List String → Option (α × List String)
+
+def pArith : String → Option ArithOp
+  | "+" => some .add | "-" => some .sub | "*" => some .mul | "/" => some .div | "^" => some .pow | "%" => some .mod | _ => none
+def pCmp : String → Option CmpOp
+  | "==" => some .eq | "!=" => some .ne | "<" => some .lt | "<=" => some .le | ">" => some .gt | ">=" => some .ge | _ => none
+def pVScope : String → Option VScope
+  | "g" => some .global | "l" => some .loc | "s" => some .special | _ => none
+def pAScope : String → Option AScope
+  | "g" => some .global | "l" => some .loc | _ => none
+
+def pExpr : Nat → P Expr
+  | 0, _ => none
+  | n+1, toks =>
+    match toks with
+    | "N" :: "i" :: v :: r => v.toNat?.map fun k => (Expr.num ⟨true, k⟩, r)
+    | "N" :: "f" :: v :: r => v.toNat?.map fun k => (Expr.num ⟨false, k⟩, r)
+    | "S" :: h :: r => (fromHex h).map fun b => (Expr.str b, r)
+    | "V" :: sc :: i :: r => do
+      let sc ← pVScope sc
+      let i ← i.toNat?
+      some (Expr.var sc i, r)
+    | "F" :: r => do
+      let (e, r) ← pExpr n r
+      some (Expr.field e, r)
+    | "I" :: sc :: a :: "1" :: r => do
+      let sc ← pAScope sc
+      let a ← a.toNat?
+      let (i, r) ← pExpr n r
+      some (Expr.index sc a i, r)
+    | "I" :: sc :: a :: "2" :: r => do
+      let sc ← pAScope sc
+      let a ← a.toNat?
+      let (i, r) ← pExpr n r
+      let (j, r) ← pExpr n r
+      some (Expr.index sc a (.multi i j), r)
+    | "IN" :: sc :: a :: "1" :: r => do
+      let sc ← pAScope sc
+      let a ← a.toNat?
+      let (i, r) ← pExpr n r
+      some (Expr.inArr i sc a, r)
+    | "IN" :: sc :: a :: "2" :: r => do
+      let sc ← pAScope sc
+      let a ← a.toNat?
+      let (i, r) ← pExpr n r
+      let (j, r) ← pExpr n r
+      some (Expr.inArr (.multi i j) sc a, r)
+    | "B" :: op :: r => do
+      let (l, r) ← pExpr n r
+      let (x, r) ← pExpr n r
+      match pArith op, pCmp op with
+      | some a, _ => some (Expr.arith a l x, r)
+      | _, some c => some (Expr.cmp c l x, r)
+      | _, _ =>
+        if op = "cat" then some (Expr.concat l x, r)
+        else if op = "&&" then some (Expr.and l x, r)
+        else if op = "||" then some (Expr.or l x, r)
+        else none
+    | "U" :: op :: r => do
+      let (e, r) ← pExpr n r
+      match op with
+      | "-" => some (Expr.unary .neg e, r)
+      | "+" => some (Expr.unary .plus e, r)
+      | "!" => some (Expr.unary .not e, r)
+      | _ => none
+    | "C" :: r => do
+      let (c, r) ← pExpr n r
+      let (t, r) ← pExpr n r
+      let (f, r) ← pExpr n r
+      some (Expr.cond c t f, r)
+    | "=" :: r => do
+      let (lv, r) ← pExpr n r
+      let (x, r) ← pExpr n r
+      some (Expr.assign lv x, r)
+    | "A" :: op :: r => do
+      let op ← pArith op
+      let (lv, r) ← pExpr n r
+      let (x, r) ← pExpr n r
+      some (Expr.augAssign lv op x, r)
+    | "++" :: pre :: r => do
+      let (lv, r) ← pExpr n r
+      some (Expr.incr lv false (pre = "pre"), r)
+    | "--" :: pre :: r => do
+      let (lv, r) ← pExpr n r
+      some (Expr.incr lv true (pre = "pre"), r)
+    | "G" :: r => do
+      let (e, r) ← pExpr n r
+      some (Expr.group e, r)
+    | _ => none
+
+def pExprs (n : Nat) : Nat → P (List Expr)
+  | 0, r => some ([], r)
+  | k+1, r => do
+    let (e, r) ← pExpr n r
+    let (es, r) ← pExprs n k r
+    some (e :: es, r)
+
+mutual
+def pStmt : Nat → P Stmt
+  | 0, _ => none
+  | n+1, toks =>
+    match toks with
+    | "e" :: r => do
+      let (e, r) ← pExpr 10000 r
+      some (Stmt.expr e, r)
+    | "p" :: k :: r => do
+      let k ← k.toNat?
+      let (es, r) ← pExprs 10000 k r
+      some (Stmt.print es, r)
+    | "if" :: r => do
+      let (c, r) ← pExpr 10000 r
+      let (b, r) ← pList n r
+      match r with
+      | "L" :: "0" :: r => some (Stmt.ifThen c b, r)
+      | _ => do
+        let (e, r) ← pList n r
+        some (Stmt.ifElse c b e, r)
+    | "w" :: r => do
+      let (c, r) ← pExpr 10000 r
+      let (b, r) ← pList n r
+      some (Stmt.while c b, r)
+    | "d" :: r => do
+      let (b, r) ← pList n r
+      let (c, r) ← pExpr 10000 r
+      some (Stmt.doWhile b c, r)
+    | "f" :: r => do
+      let (pre, r) ← match r with
+        | "_" :: r => some (Stmt.skip, r)
+        | _ => pStmt n r
+      let (c, r) ← match r with
+        | "_" :: r => some (none, r)
+        | _ => (pExpr 10000 r).map fun (e, r) => (some e, r)
+      let (post, r) ← match r with
+        | "_" :: r => some (Stmt.skip, r)
+        | _ => pStmt n r
+      let (b, r) ← pList n r
+      some (Stmt.for pre c post b, r)
+    | "b" :: r => some (Stmt.brk, r)
+    | "c" :: r => some (Stmt.cont, r)
+    | "n" :: r => some (Stmt.next, r)
+    | "x" :: "_" :: r => some (Stmt.exit none, r)
+    | "x" :: r => do
+      let (e, r) ← pExpr 10000 r
+      some (Stmt.exit (some e), r)
+    | "k" :: r => do
+      let (b, r) ← pList n r
+      some (Stmt.block b, r)
+    | _ => none
+
+/-- `L <n> stmt*n` → right-nested `seq … skip` -/
+def pList : Nat → P Stmt
+  | 0, _ => none
+  | n+1, toks =>
+    match toks with
+    | "L" :: k :: r => do
+      let k ← k.toNat?
+      pSeq n k r
+    | _ => none
+
+def pSeq : Nat → Nat → P Stmt
+  | 0, _, _ => none
+  | _, 0, r => some (Stmt.skip, r)
+  | n+1, k+1, r => do
+    let (s, r) ← pStmt n r
+    let (t, r) ← pSeq n k r
+    some (Stmt.seq s t, r)
+end
+
+def pNumC (s : String) : Option NumC :=
+  match s.splitOn ":" with
+  | ["i", v] => v.toNat?.map fun k => ⟨true, k⟩
+  | ["f", v] => v.toNat?.map fun k => ⟨false, k⟩
+  | _ => none
+
+def splitSemi (toks : List String) : List String × List String :=
+  (toks.takeWhile (· ≠ ";"), (toks.dropWhile (· ≠ ";")).drop 1)
+
+def showInts (l : List Int) : String := String.intercalate " " (l.map toString)
+
+def tables (nums strs : List String) : Option Tables := do
+  let ns ← nums.mapM pNumC
+  let ss ← strs.mapM fromHex
+  some ⟨Generated.Opcodes.opcodes, Generated.Opcodes.augOps, ns, ss⟩
+
+/-! ### running whole programs under `semC` -/
+
+inductive Item
+  | begin (s : Stmt) | action (pat : Option Expr) (body : Option Stmt) | end_ (s : Stmt)
+
+def pItems : Nat → List String → Option (List Item)
+  | 0, _ => none
+  | _, [] => some []
+  | n+1, "B" :: r => do
+    let (s, r) ← pList 10000 r
+    let rest ← pItems n r
+    some (.begin s :: rest)
+  | n+1, "E" :: r => do
+    let (s, r) ← pList 10000 r
+    let rest ← pItems n r
+    some (.end_ s :: rest)
+  | n+1, "A" :: r => do
+    let (pat, r) ← match r with
+      | "_" :: r => some (none, r)
+      | _ => (pExpr 10000 r).map fun (e, r) => (some e, r)
+    let (body, r) ← match r with
+      | "_" :: r => some (none, r)
+      | _ => (pList 10000 r).map fun (s, r) => (some s, r)
+    let rest ← pItems n r
+    some (.action pat body :: rest)
+  | _, _ => none
+
+inductive BlockOut (W : Type) | normal (w : W) | next (w : W) | exit (w : W) | error (w : W)
+
+section Run
+variable (S : Sem) (useVM : Bool)
+
+def runStmt (s : Stmt) (w : S.W) : BlockOut S.W :=
+  if useVM then
+    match run S (cStmt 0 0 s) 2000000 ⟨0, [], w⟩ with
+    | .normal w => .normal w | .next w => .next w | .exit w => .exit w | _ => .error w
+  else
+    match exec S 100000 s w with
+    | some (.normal w) | some (.brk w) | some (.cont w) => .normal w
+    | some (.next w) => .next w
+    | some (.exit w) => .exit w
+    | none => .error w
+
+/-- evaluate a pattern: `some (matched, world)`; the VM runs `cExpr` and pops the result -/
+def runPattern (e : Expr) (w : S.W) : Option (Bool × S.W) :=
+  if useVM then
+    let C := cExpr e
+    let rec go : Nat → St S → Option (Bool × S.W)
+      | 0, _ => none
+      | n+1, st =>
+        if st.pc = csize C then
+          match st.stk with
+          | [v] => some (S.toBool v, st.w)
+          | _ => none
+        else match stepTo S C st with
+          | some st' => go n st'
+          | none => none
+    go 1000000 ⟨0, [], w⟩
+  else (eval S e w).map fun (v, w) => (S.toBool v, w)
+
+end Run
+
+def splitLines (b : Bytes) : List Bytes :=
+  let rec go : Bytes → Bytes → List Bytes → List Bytes
+    | [], cur, acc => (if cur = [] then acc else cur.reverse :: acc).reverse
+    | c :: rest, cur, acc => if c = 10 then go rest [] (cur.reverse :: acc) else go rest (c :: cur) acc
+  go b [] []
+
+/-- run a program under `semC bounded`; result: (error?, world) -/
+def runProgram (bounded useVM : Bool) (items : List Item) (input : Bytes) : Bool × CW :=
+  let S := semC bounded
+  let begins := items.filterMap fun | .begin s => some s | _ => none
+  let ends := items.filterMap fun | .end_ s => some s | _ => none
+  let actions := items.filterMap fun | .action p b => some (p, b) | _ => none
+  -- BEGIN blocks: `(err, exited, w)`
+  let runBlocks (bs : List Stmt) (w : CW) : Bool × Bool × CW :=
+    bs.foldl (fun (acc : Bool × Bool × CW) s =>
+      let (err, ex, w) := acc
+      if err || ex then acc else
+      match runStmt S useVM s w with
+      | .normal w | .next w => (false, false, w)
+      | .exit w => (false, true, w)
+      | .error w => (true, false, w)) (false, false, w)
+  let w0 : CW := {}
+  let (err, exited, w) := runBlocks begins w0
+  if err then (true, w) else
+  if actions.isEmpty ∧ ends.isEmpty then (false, w) else
+  let (err, w) :=
+    if exited then (false, w) else
+    let lines := splitLines input
+    let r := lines.foldl (fun (acc : Bool × Bool × CW) line =>
+      let (err, ex, w) := acc
+      if err || ex then acc else
+      let w := Conc.setLine { w with nr := .num (Conc.toNum w.nr + 1) } line false
+      -- actions of this record: `(err, exited, skipRest, w)`
+      let r := actions.foldl (fun (a : Bool × Bool × Bool × CW) (pb : Option Expr × Option Stmt) =>
+        let (err, ex, skip, w) := a
+        if err || ex || skip then a else
+        let m : Option (Bool × CW) := match pb.1 with
+          | none => some (true, w)
+          | some p => runPattern S useVM p w
+        match m with
+        | none => (true, false, false, w)
+        | some (false, w) => (false, false, false, w)
+        | some (true, w) =>
+          match pb.2 with
+          | none => (false, false, false, Conc.printVals [] w)
+          | some body =>
+            match runStmt S useVM body w with
+            | .normal w => (false, false, false, w)
+            | .next w => (false, false, true, w)
+            | .exit w => (false, true, false, w)
+            | .error w => (true, false, false, w)) (false, false, false, w)
+      (r.1, r.2.1, r.2.2.2)) (false, false, w)
+    (r.1, r.2.2)
+  if err then (true, w) else
+  let (err, _, w) := runBlocks ends w
+  (err, w)
+
+def showRun (r : Bool × CW) : String :=
+  if r.1 then "error" else s!"ok:{toHex r.2.out}:{r.2.exit}"
+
+def handle (args : List String) : String :=
+  match args with
+  | "compile" :: kind :: rest =>
+    let (nums, rest) := splitSemi rest
+    let (strs, term) := splitSemi rest
+    match tables nums strs with
+    | none => "bad-tables"
+    | some t =>
+      if kind = "s" then
+        match pList 10000 term with
+        | some (s, []) => "ok " ++ showInts (encode t (cStmt 0 0 s))
+        | _ => "unsupported"
+      else
+        match pExpr 10000 term with
+        | some (e, []) => "ok " ++ showInts (encode t (cExpr e))
+        | _ => "unsupported"
+  | "run" :: input :: items =>
+    match fromHex input, pItems 10000 items with
+    | some inp, some its =>
+      let e := runProgram false false its inp
+      let v := runProgram false true its inp
+      let eb := runProgram true false its inp
+      let exact := showRun e == showRun eb
+      s!"{showRun e} {showRun v} {if exact then "exact" else "inexact"}"
+    | _, _ => "unsupported"
+  | _ => "bad-request"
 
 end GoawkModel.Drv.C01
